@@ -52,6 +52,9 @@ CLAIMED = {
  "C17": dict(category="fault_enumeration", technique="fault injection enumerated per generated case: every write-family and rename-family syscall of the call is failed once with strace -e inject, in a child process; exact file-name and all-or-nothing oracle on the directory listing and file bytes",
              text="The harness owns the fault schedule: for each case (format x file-name class with URL syntax x pre-existing destination x temp-directory placement x document size) a fault-free traced run takes the census of the syscalls that touch the scratch directories and then every one of them is failed once (ENOSPC/EIO/EACCES), plus a serialisation that raises half way. Fault-free the work directory must gain exactly the named file with the bytes of serialize(BytesIO); under a fault the destination must be byte-identical to its old content (or absent) when the exception propagates, or complete when the call returns.",
              note="Trusted: strace 6.1 syscall injection (ptrace), the child's exit-status protocol. Within a case the fault points are exhaustive; across cases the quick tier samples the product by VERIF_SEED and the thorough tier enumerates it (288 cases).", ref="4 C17"),
+ "C15": dict(technique="property-based testing with Graphviz as acceptance oracle: generated hostile documents x 80 option combinations, structure parsed from `dot -Tdot_json` and compared with a census computed from the unified content",
+             text="Documents whose identifiers, labels and values are drawn from a markup-hostile alphabet are rendered with prov_to_dot under sampled option combinations; Graphviz must accept the text, and the parsed structure must hold one labelled node per element record in its bundle's cluster, a node for every referenced name, exactly one correctly directed path (direct or through one point node) per relation with two endpoints and none without a relation, and annotation rows that are exactly attributes of the records.",
+             note="Trusted: Graphviz 2.43 (parser and JSON output), unified() (C08). Layout, styles, node ids, the cluster of merely referenced names and relations lacking an endpoint are not asserted.", ref="4 C15"),
 }
 PENDING_REASON = "check not built yet in this round (design in DESIGN.md section 4); not claimed until the check exists and is quiet on the unchanged tree"
 checks = []
